@@ -85,38 +85,44 @@ func exportImport(ex *Exec) []Violation {
 		return vs
 	}
 	post := w.Snapshot()
-	want := map[string]int64{}
-	for id := range pre.ActiveID {
-		rq, ok := pre.Reqs[id]
-		if !ok {
-			continue
-		}
-		fee := stakeOf(rq.ServiceFee)
-		if rc, ok := pre.Ctxs[hx(rq.RequestContextId)]; ok && fee != 0 {
-			want[hx(rc.Consumer)] += fee
-			want[w.RequestAcc] -= fee
-		}
+	denoms := []string{"stake"}
+	if w.cfg.FundingPoint != nil {
+		denoms = append(denoms, "point") // the cases in which accounts hold a second coin
 	}
-	for _, e := range pre.Earned {
-		if e.Amount != 0 {
-			want[e.Provider] += e.Amount
-			want[w.RequestAcc] -= e.Amount
+	for _, denom := range denoms {
+		want := map[string]int64{}
+		for id := range pre.ActiveID {
+			rq, ok := pre.Reqs[id]
+			if !ok {
+				continue
+			}
+			fee := amtIn(rq.ServiceFee, denom)
+			if rc, ok := pre.Ctxs[hx(rq.RequestContextId)]; ok && fee != 0 {
+				want[hx(rc.Consumer)] += fee
+				want[w.RequestAcc] -= fee
+			}
 		}
-	}
-	for k, v := range want {
-		if v == 0 {
-			delete(want, k)
+		for _, e := range pre.Earned {
+			if e.Amount != 0 && e.Denom == denom {
+				want[e.Provider] += e.Amount
+				want[w.RequestAcc] -= e.Amount
+			}
 		}
-	}
-	got := balanceDiff(pre, post)
-	for _, a := range sortedAddrs(got, want) {
-		if got[a] != want[a] {
-			fail("prep_refund", "zero-height preparation moved %d to/from %s, expected %d (pending fees return to consumers, earnings go to their providers)", got[a], a, want[a])
-			break
+		for k, v := range want {
+			if v == 0 {
+				delete(want, k)
+			}
 		}
-	}
-	if post.Bal[w.RequestAcc] != 0 {
-		fail("prep_escrow", "request escrow holds %d after zero-height preparation", post.Bal[w.RequestAcc])
+		got := balanceDiffIn(pre, post, denom)
+		for _, a := range sortedAddrs(got, want) {
+			if got[a] != want[a] {
+				fail("prep_refund", "zero-height preparation moved %d %s to/from %s, expected %d (pending fees return to consumers, earnings go to their providers)", got[a], denom, a, want[a])
+				break
+			}
+		}
+		if post.balIn(denom)[w.RequestAcc] != 0 {
+			fail("prep_escrow", "request escrow holds %d %s after zero-height preparation", post.balIn(denom)[w.RequestAcc], denom)
+		}
 	}
 	for _, cid := range sortedKeys(post.Ctxs) {
 		rc := post.Ctxs[cid]
